@@ -24,7 +24,7 @@ import numpy as np
 PROP = 'C03'
 TARGETS = ['T2', 'T3', 'TC03pyr', 'TC03stack', 'TC03segvol', 'TC03imgvol', 'TC03wireV', 'TC03wireI', 'TC03wireS', 'TC03single', 'TC03getitem', 'TC03volpos', 'TC03rot', 'TC03loop', 'TC03idxval', 'TC03dist']
 LEAN_MODULES = ['HdVerif.Props.C03']
-MODEL_MODULES = ['HdVerif.Model.SegGeom', 'HdVerif.Model.SegFrames']
+MODEL_MODULES = ['HdVerif.Model.SegGeom', 'HdVerif.Model.SegFrameLoop']
 NAMESPACE = 'HdVerif.C03'
 DRIVER = 'Drivers/C03.lean'
 RULE = ('streams: vol = Segmentation(pixel_array=Volume) with a random admissible affine (48 signed-permutation or oblique '
